@@ -224,7 +224,7 @@ func (be *c08BitsEval) bits(v ssa.Value, fr *codec.Frame, busy map[ssa.Value]boo
 		if be.test == nil || f == nil || f.Blocks == nil || be.inModule == nil || !be.inModule(f) || depth >= 2 || f.Signature.Results().Len() != 1 {
 			break
 		}
-		fr2 := &codec.Frame{Call: x, Callee: f, Parent: fr}
+		fr2 := codec.ChildFrame(x, f, fr)
 		hv := be.view(fr2)
 		zeros, ones = ^uint64(0), ^uint64(0)
 		n := 0
